@@ -589,6 +589,22 @@ def c15_templates(tier):
                                          {"op": "set_len", "p": sp(["zz"]), "n": 4500},
                                          {"op": "remove_stream", "p": sp(["zz"])}],
                 }
+                # a freed chain is reused in REVERSE order (the free lists are LIFO): the second big stream's chain runs
+                # backwards through the space of the first; a small stream created in between sits behind it and is
+                # removed first, so that the reversed chain is at the tail of the (mini) FAT when it is released
+                r = {10: 640, 64: 2560}.get(s, s)
+                cycles["reuse_reversed"] = [{"op": "create_stream", "p": sp(["zz"])},
+                                            {"op": "write", "p": sp(["zz"]), "off": 0, "runs": [[7, r]]},
+                                            {"op": "create_stream", "p": sp(["quux"])},
+                                            {"op": "write", "p": sp(["quux"]), "off": 0, "runs": [[8, 10 if r < 4096 else 4500]]},
+                                            {"op": "remove_stream", "p": sp(["zz"])},
+                                            {"op": "create_stream", "p": sp(["k1"])},
+                                            {"op": "write", "p": sp(["k1"]), "off": 0, "runs": [[9, r]]},
+                                            {"op": "remove_stream", "p": sp(["quux"])},
+                                            {"op": "remove_stream", "p": sp(["k1"])}]
+                cycles["reuse_reversed_resize"] = cycles["reuse_reversed"][:-1] + [
+                    {"op": "set_len", "p": sp(["k1"]), "n": r // 2}, {"op": "set_len", "p": sp(["k1"]), "n": r},
+                    {"op": "remove_stream", "p": sp(["k1"])}]
                 if s in (10, 4096, 10000):
                     cycles["create_setlen_remove"] = [{"op": "create_stream", "p": sp(["zz"])},
                                                      {"op": "write", "p": sp(["zz"]), "off": 0, "runs": [[7, s]]},
